@@ -757,6 +757,15 @@ class H2Connection:
 
         # Check we can open the stream.
         if stream_id not in self.streams:
+            if (not self.config.client_side and
+                    self._stream_id_is_outbound(stream_id) and
+                    stream_id > self.highest_outbound_stream_id):
+                # Only clients open streams with HEADERS: a server can only
+                # create streams by promising them with push_stream.
+                raise ProtocolError(
+                    "Servers cannot open stream %d with HEADERS" % stream_id
+                )
+
             max_open_streams = self.remote_settings.max_concurrent_streams
             if (self.open_outbound_streams + 1) > max_open_streams:
                 raise TooManyStreamsError(
